@@ -10,9 +10,15 @@ from units import UNITS  # noqa: E402
 # properties whose theorems rest on another property's model: the translator-tie theorems of the foundation are
 # obligations of the dependent property too (a changed limb kernel invalidates the composition)
 DEP_MODULES = {
-    "C04": ["CxVerif.Props.C03.KernelTie"],
-    "C06": ["CxVerif.Props.C05.KernelTie", "CxVerif.Props.C05.KernelTieNew", "CxVerif.Props.C03.KernelTie"],
-    "C07": ["CxVerif.Props.C05.KernelTie", "CxVerif.Props.C05.KernelTieNew", "CxVerif.Props.C03.KernelTie"],
+    "C03": ["CxVerif.Props.C16.KernelTieChaCha"],
+    "C04": ["CxVerif.Props.C03.KernelTie", "CxVerif.Props.C16.KernelTieChaCha"],
+    "C06": ["CxVerif.Props.C05.KernelTie", "CxVerif.Props.C05.KernelTieNew", "CxVerif.Props.C03.KernelTie", "CxVerif.Props.C16.KernelTieChaCha"],
+    "C07": ["CxVerif.Props.C05.KernelTie", "CxVerif.Props.C05.KernelTieNew", "CxVerif.Props.C03.KernelTie", "CxVerif.Props.C16.KernelTieChaCha"],
+    # C20's overflow-freedom clause rests on the no-overflow obligations of the arithmetic units and on the refusal
+    # behaviour proved with the functional theorems: those modules are obligations of C20 too
+    "C20": ["CxVerif.Props.C05.Poly1305", "CxVerif.Props.C05.KernelTie", "CxVerif.Props.C15.Fe64", "CxVerif.Props.C15.KernelTieFe64",
+            "CxVerif.Props.C15.Scalar64", "CxVerif.Props.C15.KernelTieScalar64", "CxVerif.Props.C03.KernelTie",
+            "CxVerif.Props.C04.GlueTieStream", "CxVerif.Props.C01.GlueTieMd", "CxVerif.Props.C10.Kdf", "CxVerif.Props.C11.Argon2Full"],
     "C09": ["CxVerif.Props.C05.KernelTie", "CxVerif.Props.C05.KernelTieNew", "CxVerif.Props.C01.KernelTieSha256", "CxVerif.Props.C01.KernelTieSha512",
             "CxVerif.Props.C01.KernelTieKeccak", "CxVerif.Props.C01.KernelTieBlake2"],
     "C10": ["CxVerif.Props.C01.KernelTieSha256", "CxVerif.Props.C01.KernelTieSha512", "CxVerif.Props.C01.KernelTieSha1"],
